@@ -44,6 +44,11 @@ func main() {
 	zerolog.SetGlobalLevel(zerolog.Disabled)
 	out := hx.Open()
 	defer out.Close()
+	defer func() {
+		if tmpDir != "" {
+			os.RemoveAll(tmpDir)
+		}
+	}()
 	if lines := hx.ReplayLines(); lines != nil {
 		for _, l := range lines {
 			if len(l) >= 2 {
